@@ -16,6 +16,9 @@ func main() {
 		os.Exit(2)
 	}
 	cmd := os.Args[1]
+	if sub, ok := subcommands[cmd]; ok {
+		os.Exit(sub(os.Args[2:]))
+	}
 	fs := flag.NewFlagSet(cmd, flag.ExitOnError)
 	tier := fs.String("tier", "quick", "quick|thorough")
 	seed := fs.Int64("seed", 1, "PRNG seed")
@@ -35,9 +38,6 @@ func main() {
 			os.Exit(2)
 		}
 		return
-	}
-	if sub, ok := subcommands[cmd]; ok {
-		os.Exit(sub(os.Args[2:]))
 	}
 	p, ok := props[cmd]
 	if !ok {
